@@ -114,7 +114,7 @@ def op_text_roundtrip(t):
             r['stage'] = 'write'
             return r
         res = _read(path, compression, int(t.get('start', 0)), int(t.get('step', 1)))
-        if t.get('count_jobs') and compression == 'gzip':
+        if t.get('count_jobs') is not None and compression == 'gzip':
             res['count'] = _count(path, int(t['count_jobs']))
         # the characters of the written file, no newline translation (code points: they may be line separators)
         try:
